@@ -18,11 +18,16 @@ CLAIMS = {
          "Bounded: the node loop of _generate_graph (one node per asset x step, attributes, existence status) is decided by the floor.", '4 C02'),
  'C03': ('other', "Deductive: _get_attacks_for_asset_type is proved pure (nothing allocated before the call is written: the specification stays unmodified), separated (every container reachable from "
          "the result is fresh) and terminating, against the assumed contract DEEPCOPY. Bounded: the fold equation (override / extend / no-reaches) is decided by the floor over all chains of depth <=4.", '4 C03'),
- 'C04': ('exploration', "Bounded only so far: printer -> real compiler round trip over enumerated and random specifications, include layouts, coreLang .mar; no contract on the visitor yet.", '4 C04, 5'),
+ 'C04': ('other', "Deductive (small part): MalCompiler.compile - the per-file driver that resolves includes relative to the including file's directory state and restores it on every exit - is verified "
+         "against the assumed ANTLR contract (shared with C17). Bounded (the bulk): printer -> real compiler round trip over enumerated and random specifications (TTC arithmetic, set / collect / "
+         "transitive / subtype / variable expressions, multiplicities, meta), include layouts incl. same include string in different directories, name-sharing associations, coreLang .mar. "
+         "The visitor methods are not under contract.", '4 C04, 5'),
  'C05': ('other', "Deductive: get_associated_assets_by_field_name under the assumed object model of python_jsonschema_objects. Bounded: all histories of <=3 API operations (valid and invalid "
          "arguments) against an abstract reference model, random histories to 12 operations. Known findings are listed in known_findings.txt.", '4 C05'),
  'C06': ('exploration', "Bounded only: all languages of a 2-type family + random 3-type languages; generated classes, defaults, rejections. Enforcement by python_jsonschema_objects is an assumption.", '4 C06'),
- 'C07': ('exploration', "Bounded only: API-built and hand-written models x {json, yml, yaml}; json/yaml are external.", '4 C07'),
+ 'C07': ('other', "Deductive (small part): Model.get_asset_by_id, which _from_dict uses to resolve the member ids of associations and entry points (returns a member with that id, None iff none). "
+         "Bounded (the bulk): API-built and hand-written models x {json, yml, yaml}, save/load/modify/save/load sequences on non-canonical paths, defenses by name incl. 0.0 on Enabled defaults; "
+         "json / yaml are external. Known finding: two attackers with one id.", '4 C07'),
  'C08': ('proof', "Every function of the apriori analysis (evaluate_*, propagate_* incl. the recursive contract with a well-founded measure, calculate_viability_and_necessity) is verified against "
          "sidecar contracts whose top-level post is the property: no equation violated, base nodes carry their status, every solution lies below the computed labelling (greatest fixed point), "
          "hence order independence. The floor (all graphs <=2 nodes + random) replays counterexamples.", '4 C08, A.4'),
